@@ -281,18 +281,12 @@ fn build_entry(out: &mut Vec<u8>, node: &PathTreeNode) {
     if !name_bytes.is_empty() {
         out.push(PATH_SEPARATOR);
 
-        // Write name fragment: length + bytes
-        // For names longer than 255 bytes, we'd need to split into fragments.
-        // In practice TVFS names are short.
-        if name_bytes.len() <= 255 {
-            out.push(name_bytes.len() as u8);
-            out.extend_from_slice(name_bytes);
-        } else {
-            // Split into 255-byte chunks
-            for chunk in name_bytes.chunks(255) {
-                out.push(chunk.len() as u8);
-                out.extend_from_slice(chunk);
-            }
+        // Write name fragments: length + bytes. A length byte of 0xFF is the
+        // node-value marker, so a fragment holds at most 254 bytes; longer names
+        // are split (the reader concatenates the fragments of one entry).
+        for chunk in name_bytes.chunks(254) {
+            out.push(chunk.len() as u8);
+            out.extend_from_slice(chunk);
         }
     }
 
